@@ -905,9 +905,20 @@ impl Sim {
                 "server"
             };
             if !which.is_empty() {
+                // what is left over (netstat hides Closed TCBs)
+                let ns = turmoil_net::netstat(self.world.hosts[h].addrs[0]);
+                let mut res: Vec<String> = ns
+                    .entries
+                    .iter()
+                    .filter(|e| e.proto == Proto::Tcp && e.state != Some(NetstatState::Listen))
+                    .map(|e| format!("{:?}", e.state.unwrap()))
+                    .collect();
+                res.sort();
+                res.dedup();
+                let residue = if res.is_empty() { "hidden".to_string() } else { res.join("+") };
                 return Err(self.complaint(
                     idx,
-                    &format!("{class}:{side}:{which}"),
+                    &format!("{class}:{side}:{which}:{residue}"),
                     format!(
                         "after {} fault-free rounds with everything closed the {side} host has sockets={} bindings={} binding_fds={} connections={}, model expects {want}/{want}/{want}/0",
                         self.cfg.q(), c.sockets, c.bindings, c.binding_fds, c.connections
